@@ -22,8 +22,9 @@ import (
 
 func init() {
 	mon.Register(&mon.Prop{
-		ID:     "C16",
-		Custom: run,
+		ID:           "C16",
+		Custom:       run,
+		CustomReplay: replay,
 		Rule: "the cmd/pql binary built from the working tree is run as a child process on generated scripts: sequences of let / query / invalid statements (lets that succeed, fail, shadow; queries using or not using them; lexically broken statements) x layouts " +
 			"(several per line, statements across lines, comments and blank lines between, CRLF, final statement terminated or not) x delivery (stdin, one file, the script cut into 2-4 files at arbitrary bytes, '-' among files, -o file); " +
 			"faults: a line longer than the line buffer, a directory as FILE, a missing file, strace-injected EIO on the K-th read. oracle: per-statement model computed from the generator's statement list with the library (prelude of accepted lets; expected stdout = SQL + blank line per successful query; " +
@@ -116,7 +117,52 @@ var queries = []string{"T | where a == x | take lim", "T | count", "T | where s 
 var invalid = []string{"T | where (", "T | bogus", "!", "T | take 1.5", "T | where 'unterminated\n", "T U", "T | where a ==", "| count", "T | join (U) on"}
 var seps = []string{"; ", ";\n", ";\n\n// a comment; with a semicolon\n", " ;\n", ";\r\n", ";\n   \n", "; // trailing comment\n", ";\t"}
 
+// chainScript: lets that depend on earlier lets, then queries that use the
+// last link, with unrelated statements interleaved.
+func chainScript(rng *rand.Rand) *Script {
+	s := &Script{}
+	add := func(st string) {
+		s.Stmts = append(s.Stmts, st)
+		s.Seps = append(s.Seps, seps[rng.Intn(len(seps))])
+	}
+	names := []string{"lo", "hi", "mid", "top2", "x", "lim"}
+	rng.Shuffle(len(names), func(i, j int) { names[i], names[j] = names[j], names[i] })
+	k := 2 + rng.Intn(3)
+	add(fmt.Sprintf("let %s = %d", names[0], 1+rng.Intn(9)))
+	for i := 1; i < k; i++ {
+		if rng.Intn(3) == 0 {
+			add(invalid[rng.Intn(len(invalid))])
+		}
+		if rng.Intn(4) == 0 {
+			add(letsBad[rng.Intn(len(letsBad))])
+		}
+		op := []string{"+", "*", "-"}[rng.Intn(3)]
+		if rng.Intn(4) == 0 {
+			add(fmt.Sprintf("let %s = %s %s %d", names[i-1], names[i-1], op, 1+rng.Intn(5))) // redefinition from the old value
+		}
+		add(fmt.Sprintf("let %s = %s %s %d", names[i], names[i-1], op, 1+rng.Intn(5)))
+	}
+	last := names[k-1]
+	for q := 1 + rng.Intn(2); q > 0; q-- {
+		switch rng.Intn(3) {
+		case 0:
+			add("T | where a > " + last + " | take " + names[0])
+		case 1:
+			add("T | extend v = " + last + " * 2, w = -" + names[rng.Intn(k)])
+		default:
+			add("T\n| top " + last + " by a")
+		}
+	}
+	if rng.Intn(2) == 0 {
+		s.Seps[len(s.Seps)-1] = []string{"", "\n"}[rng.Intn(2)]
+	}
+	return s
+}
+
 func genScript(rng *rand.Rand) *Script {
+	if rng.Intn(3) == 0 {
+		return chainScript(rng)
+	}
 	n := 1 + rng.Intn(6)
 	s := &Script{}
 	if rng.Intn(4) == 0 {
@@ -430,6 +476,14 @@ func faults(c *mon.Custom, cli, self string, rng *rand.Rand) {
 	os.WriteFile(filepath.Join(dir, "long.pql"), []byte(long), 0o644)
 	check("long-line-file", []string{"long.pql"}, "", pre, "line 3 of the input is 70 KB long and cannot be read")
 	check("long-line-stdin", nil, long, pre, "line 3 of standard input is 70 KB long and cannot be read")
+	// the over-long line in the middle of a multi-line statement whose first lines
+	// would be a valid query on their own: nothing of it may be compiled
+	mid := before.Text() + "T\n| where a == '" + strings.Repeat("x", 70_000) + "'\n| take 5;\nT | count;\n"
+	os.WriteFile(filepath.Join(dir, "mid.pql"), []byte(mid), 0o644)
+	check("long-line-inside-statement", []string{"mid.pql"}, "", pre, "line 4, in the middle of a statement, is 70 KB long and cannot be read")
+	mid2 := before.Text() + "T | where b\n// " + strings.Repeat("c", 70_000) + "\n| take 5;\n"
+	os.WriteFile(filepath.Join(dir, "mid2.pql"), []byte(mid2), 0o644)
+	check("long-comment-inside-statement", []string{"mid2.pql"}, "", pre, "a 70 KB comment line in the middle of a statement cannot be read")
 	// a directory as FILE
 	os.MkdirAll(filepath.Join(dir, "adir"), 0o755)
 	os.WriteFile(filepath.Join(dir, "ok.pql"), []byte(before.Text()), 0o644)
@@ -442,7 +496,7 @@ func faults(c *mon.Custom, cli, self string, rng *rand.Rand) {
 		c.Inconclusive("strace_not_available")
 		return
 	}
-	big := before.Text() + strings.Repeat("T | count;\n", 1200) // > one 4 KiB read
+	big := before.Text() + strings.Repeat("T | count;\nT\n| count;\n", 800) // several 4 KiB reads, cut inside statements
 	os.WriteFile(filepath.Join(dir, "big.pql"), []byte(big), 0o644)
 	for k := 1; k <= 3; k++ {
 		logf := filepath.Join(dir, fmt.Sprintf("strace%d.log", k))
@@ -465,8 +519,13 @@ func faults(c *mon.Custom, cli, self string, rng *rand.Rand) {
 		key := "fault|" + name
 		cs := map[string]any{"fault": name}
 		out := so.String()
-		// stdout must be a whole number of statement outputs, a prefix of the full expectation
-		okPrefix := strings.HasPrefix(pre+strings.Repeat("X", 0), out) || strings.HasPrefix(out, pre) || out == ""
+		// stdout must be the outputs of a whole number of leading statements
+		okPrefix := out == ""
+		if strings.HasPrefix(out, pre) {
+			rest := out[len(pre):]
+			const countOut = "SELECT COUNT(*) AS \"count()\" FROM \"T\";\n\n"
+			okPrefix = len(rest)%len(countOut) == 0 && strings.Repeat(countOut, len(rest)/len(countOut)) == rest
+		}
 		switch {
 		case exit == 0:
 			c.Violation(key, "", fmt.Sprintf("read #%d of the input file failed with EIO (injected), yet pql exits with status 0 (%d bytes of output, stderr %q)", k, len(out), clip(se.String(), 300)), cs)
@@ -490,4 +549,37 @@ func clip(s string, n int) string {
 		return s[:n] + "…"
 	}
 	return s
+}
+
+// replay re-runs one recorded (script, delivery) or the fault family.
+func replay(c *mon.Custom, raw json.RawMessage) {
+	cli := os.Getenv("VERIF_PQLCLI")
+	var rc struct {
+		Script   *Script `json:"script"`
+		Delivery string  `json:"delivery"`
+		Fault    string  `json:"fault"`
+	}
+	json.Unmarshal(raw, &rc)
+	if rc.Fault != "" || rc.Script == nil {
+		faults(c, cli, c.Self, gen.RNG(1, "replay"))
+		return
+	}
+	in := filepath.Join(c.Dir, "m.in")
+	out := filepath.Join(c.Dir, "m.out")
+	jb, _ := json.Marshal([]*Script{rc.Script})
+	os.WriteFile(in, jb, 0o644)
+	if err := exec.Command("timeout", "-s", "KILL", "120", c.Self, "c16model", in, out).Run(); err != nil {
+		c.Inconclusive("model_process_failed")
+		return
+	}
+	var es []Expect
+	ob, _ := os.ReadFile(out)
+	if json.Unmarshal(ob, &es) != nil || len(es) != 1 {
+		c.Inconclusive("model_process_failed")
+		return
+	}
+	for i := int64(0); i < 8; i++ {
+		// the cut positions of multi-file deliveries are seeded: try several
+		checkDelivery(c, cli, rc.Script, &es[0], rc.Delivery, gen.RNG(i, "delivery"), fmt.Sprintf("replay%d", i))
+	}
 }
